@@ -113,6 +113,7 @@ func init() {
 		// separate exported knobs.
 		Pipe{Name: "trend.Kdj", Class: "indicator", Inputs: ins("high", "low", "close"), Params: ps("rmax", "rmin", "sma1", "sma2"),
 			Default: cfgOf(trend.DefaultKdjMinMaxPeriod, trend.DefaultKdjMinMaxPeriod, trend.DefaultKdjSma1Period, trend.DefaultKdjSma2Period),
+			Valid:   func(c []int) bool { return c[0] == c[1] },
 			Make: func(cfg []int) Inst {
 				x := trend.NewKdj[float64]()
 				x.MovingMax.Period, x.MovingMin.Period, x.Sma1.Period, x.Sma2.Period = cfg[0], cfg[1], cfg[2], cfg[3]
